@@ -35,3 +35,4 @@ import DateutilVerif.Properties.TzObjGen   -- translator tie (wt-iso): obligatio
 #print axioms C17.malformed_bad_rrule
 #print axioms C17.zone_state_does_not_leak
 #print axioms C17.component_state_does_not_leak
+#print axioms C17.component_without_dtstart
